@@ -1,4 +1,245 @@
 package main
 
+import (
+	"go/ast"
+	"strings"
+)
+
+// actions flattens a statement list into an ordered list of abstract action names:
+// calls by callee, `go f`, `defer f`, `return`, `x++`; statements nested in an if/else get the prefix "if:".
+func actions(stmts []ast.Stmt, prefix string) []string {
+	var out []string
+	var callsIn func(e ast.Expr)
+	callsIn = func(e ast.Expr) {
+		ast.Inspect(e, func(n ast.Node) bool {
+			if _, ok := n.(*ast.FuncLit); ok {
+				return false
+			}
+			if c, ok := n.(*ast.CallExpr); ok {
+				name := exprString(c.Fun)
+				// conversions and builtins that carry no behaviour for the models
+				switch name {
+				case "errors.New", "string", "int", "uint", "len", "make", "append", "new":
+				default:
+					out = append(out, prefix+name)
+				}
+			}
+			return true
+		})
+	}
+	for _, st := range stmts {
+		switch s := st.(type) {
+		case *ast.ExprStmt:
+			callsIn(s.X)
+		case *ast.GoStmt:
+			out = append(out, prefix+"go "+exprString(s.Call.Fun))
+		case *ast.DeferStmt:
+			out = append(out, prefix+"defer "+exprString(s.Call.Fun)+"("+joinArgs(s.Call.Args)+")")
+		case *ast.ReturnStmt:
+			for _, r := range s.Results {
+				callsIn(r)
+			}
+			out = append(out, prefix+"return")
+		case *ast.IncDecStmt:
+			out = append(out, prefix+exprString(s.X)+s.Tok.String())
+		case *ast.AssignStmt:
+			for _, r := range s.Rhs {
+				callsIn(r)
+			}
+		case *ast.DeclStmt:
+		case *ast.IfStmt:
+			if s.Init != nil {
+				out = append(out, actions([]ast.Stmt{s.Init}, prefix)...)
+			}
+			out = append(out, actions(s.Body.List, prefix+"if:")...)
+			if s.Else != nil {
+				switch e := s.Else.(type) {
+				case *ast.BlockStmt:
+					out = append(out, actions(e.List, prefix+"else:")...)
+				case *ast.IfStmt:
+					out = append(out, actions([]ast.Stmt{e}, prefix+"else:")...)
+				}
+			}
+		case *ast.BlockStmt:
+			out = append(out, actions(s.List, prefix)...)
+		case *ast.SendStmt:
+			out = append(out, prefix+"send "+exprString(s.Chan))
+		}
+	}
+	return out
+}
+
+func joinArgs(args []ast.Expr) string {
+	var p []string
+	for _, a := range args {
+		p = append(p, exprString(a))
+	}
+	return strings.Join(p, ",")
+}
+
+// firstLoop returns the body of the first `for` statement of fn.
+func firstLoop(fd *ast.FuncDecl) *ast.ForStmt {
+	var loop *ast.ForStmt
+	if fd == nil {
+		return nil
+	}
+	ast.Inspect(fd.Body, func(n ast.Node) bool {
+		if loop != nil {
+			return false
+		}
+		if f, ok := n.(*ast.ForStmt); ok {
+			loop = f
+			return false
+		}
+		return true
+	})
+	return loop
+}
+
+type swCase struct {
+	types   []string
+	actions []string
+}
+
+// recvShape describes a receive loop: defers before the loop, the error branch after NextPacket, the type switch
+// (per case: the types and the actions), and what follows the switch inside the loop.
+func recvShape(fd *ast.FuncDecl) (defers, errBranch []string, cases []swCase, after []string) {
+	if fd == nil {
+		return []string{"<missing function>"}, nil, nil, nil
+	}
+	for _, st := range fd.Body.List {
+		if d, ok := st.(*ast.DeferStmt); ok {
+			defers = append(defers, exprString(d.Call.Fun)+"("+joinArgs(d.Call.Args)+")")
+		}
+	}
+	loop := firstLoop(fd)
+	if loop == nil {
+		return defers, []string{"<no loop>"}, nil, nil
+	}
+	seenSwitch := false
+	for _, st := range loop.Body.List {
+		switch s := st.(type) {
+		case *ast.IfStmt:
+			if !seenSwitch && strings.Contains(exprString(s.Cond), "err") {
+				errBranch = actions(s.Body.List, "")
+				continue
+			}
+			after = append(after, actions([]ast.Stmt{s}, "")...)
+		case *ast.TypeSwitchStmt:
+			seenSwitch = true
+			for _, cc := range s.Body.List {
+				cl := cc.(*ast.CaseClause)
+				var c swCase
+				for _, t := range cl.List {
+					c.types = append(c.types, exprString(t))
+				}
+				if cl.List == nil {
+					c.types = []string{"default"}
+				}
+				c.actions = actions(cl.Body, "")
+				cases = append(cases, c)
+			}
+		default:
+			if seenSwitch {
+				after = append(after, actions([]ast.Stmt{st}, "")...)
+			}
+		}
+	}
+	return
+}
+
+func leanCases(cs []swCase) string {
+	var parts []string
+	for _, c := range cs {
+		parts = append(parts, "("+leanStrList(c.types)+", "+leanStrList(c.actions)+")")
+	}
+	return "[" + strings.Join(parts, ",\n  ") + "]"
+}
+
+func genRecv(root *pkg) *genFile {
+	g := newGen("RecvSwitch")
+	d, e, cs, a := recvShape(root.fn("Client", "recv"))
+	g.def("clientDefers", "List String", leanStrList(d), "defer statements of Client.recv")
+	g.def("clientErrBranch", "List String", leanStrList(e), "actions when NextPacket returns an error")
+	g.def("clientCases", "List (List String × List String)", leanCases(cs), "type switch of Client.recv: (types, actions) per case")
+	g.def("clientAfterSwitch", "List String", leanStrList(a), "statements after the switch, inside the loop")
+	d, e, cs, a = recvShape(root.fn("Component", "recv"))
+	g.def("componentDefers", "List String", leanStrList(d), "defer statements of Component.recv")
+	g.def("componentErrBranch", "List String", leanStrList(e), "actions when NextPacket returns an error")
+	g.def("componentCases", "List (List String × List String)", leanCases(cs), "type switch of Component.recv")
+	g.def("componentAfterSwitch", "List String", leanStrList(a), "statements after the switch, inside the loop")
+	// Router.route: what the SMAnswer hook does
+	g.def("routeActions", "List String", leanStrList(fnActions(root.fn("Router", "route"))), "flattened actions of Router.route")
+	g.def("sendMissingActions", "List String", leanStrList(fnActions(root.fn("", "SendMissingStz"))), "flattened actions of SendMissingStz")
+	return g
+}
+
+func fnActions(fd *ast.FuncDecl) []string {
+	if fd == nil {
+		return []string{"<missing function>"}
+	}
+	return actionsDeep(fd.Body.List, "")
+}
+
+// actionsDeep is `actions` that also descends into for / switch / type-switch / select bodies.
+func actionsDeep(stmts []ast.Stmt, prefix string) []string {
+	var out []string
+	for _, st := range stmts {
+		switch s := st.(type) {
+		case *ast.ForStmt:
+			out = append(out, actionsDeep(s.Body.List, prefix+"for:")...)
+		case *ast.RangeStmt:
+			out = append(out, actionsDeep(s.Body.List, prefix+"for:")...)
+		case *ast.SwitchStmt:
+			for _, cc := range s.Body.List {
+				out = append(out, actionsDeep(cc.(*ast.CaseClause).Body, prefix+"case:")...)
+			}
+		case *ast.TypeSwitchStmt:
+			for _, cc := range s.Body.List {
+				cl := cc.(*ast.CaseClause)
+				var ts []string
+				for _, t := range cl.List {
+					ts = append(ts, exprString(t))
+				}
+				out = append(out, actionsDeep(cl.Body, prefix+"case("+strings.Join(ts, "|")+"):")...)
+			}
+		case *ast.SelectStmt:
+			for _, cc := range s.Body.List {
+				cl := cc.(*ast.CommClause)
+				label := "default"
+				if cl.Comm != nil {
+					switch c := cl.Comm.(type) {
+					case *ast.ExprStmt:
+						label = exprString(c.X)
+					case *ast.AssignStmt:
+						label = exprString(c.Rhs[0])
+					case *ast.SendStmt:
+						label = "send " + exprString(c.Chan)
+					}
+				}
+				out = append(out, actionsDeep(cl.Body, prefix+"select("+label+"):")...)
+			}
+		case *ast.IfStmt:
+			if s.Init != nil {
+				out = append(out, actionsDeep([]ast.Stmt{s.Init}, prefix)...)
+			}
+			out = append(out, actionsDeep(s.Body.List, prefix+"if:")...)
+			if s.Else != nil {
+				switch e := s.Else.(type) {
+				case *ast.BlockStmt:
+					out = append(out, actionsDeep(e.List, prefix+"else:")...)
+				case *ast.IfStmt:
+					out = append(out, actionsDeep([]ast.Stmt{e}, prefix+"else:")...)
+				}
+			}
+		case *ast.BlockStmt:
+			out = append(out, actionsDeep(s.List, prefix)...)
+		default:
+			out = append(out, actions([]ast.Stmt{st}, prefix)...)
+		}
+	}
+	return out
+}
+
 // extraGens: further Gen files, added as properties are built.
-func extraGens(root, st *pkg) []*genFile { return nil }
+func extraGens(root, st *pkg) []*genFile { return []*genFile{genRecv(root)} }
